@@ -185,9 +185,17 @@ where
                                     let fun_task = fun.clone();
                                     let semaphore = semaphore.clone();
                                     exec::spawn(async move {
-                                        let _permit = semaphore.acquire().await.ok();
-                                        let result = fun_task(argument).await;
-                                        let _ = result_tx.send(result);
+                                        // Cancel the execution when the caller is gone.
+                                        tokio::select! {
+                                            biased;
+                                            () = result_tx.closed() => (),
+                                            result = async {
+                                                let _permit = semaphore.acquire().await.ok();
+                                                fun_task(argument).await
+                                            } => {
+                                                let _ = result_tx.send(result);
+                                            }
+                                        }
                                     }.in_current_span());
                                 }
                                 Ok(None) => break,
